@@ -12,6 +12,7 @@ PARAM_SEEDS = {
     "h5group": ("obj", "H5Group"),
     "h5parent": ("obj", "H5Group"),
     "h5dataset": ("obj", "H5DataSet"),
+    "dest": ("obj", "H5Group"),
 }
 
 # ---- attribute name -> type, used when an instance attribute is not in the abstract heap -----
